@@ -86,6 +86,13 @@ type WatchCall struct {
 
 func NewServer() *Server { return &Server{objs: map[string]Obj{}, RVStep: 1} }
 
+// StartAt makes the server hand out resource versions above rv (before any change is applied).
+func (s *Server) StartAt(rv int) {
+	s.mu.Lock()
+	s.rv = rv
+	s.mu.Unlock()
+}
+
 func (s *Server) bump() int {
 	s.rv += s.RVStep
 	return s.rv
